@@ -123,8 +123,18 @@ def r1(ctx: Ctx) -> None:
     # every way to a result either took the mapping form (asserted to be a dict) or asserted the scalar to be > 0
     pos = {mk_lt(k_num(0), ("c", ("g", "float"), (area,), ())), mk_lt(k_num(0), area)}
     is_map = ("c", ("g", "isinstance"), (area, ("g", "dict")), ())
-    done = [(set(l), o) for l, o in paths(ca, fall=K_NONE) if not (isinstance(o, tuple) and o[:1] == ("raise",))]
-    scalar_ok = bool(done) and all(is_map in l or (pos & l) for l, o in done) and any(pos & l for l, o in done)
+    def conjuncts(l):
+        out_ = set()
+        for t in l:
+            out_ |= set(t[1]) if t[0] == "and" else {t}
+        return out_
+    done = [(conjuncts(l), o) for l, o in paths(ca, fall=K_NONE) if not (isinstance(o, tuple) and o[:1] == ("raise",))]
+    def known_map(l):
+        # asserted directly, or by an asserted disjunction all of whose other alternatives are excluded on this path
+        if is_map in l:
+            return True
+        return any(t[0] == "or" and is_map in t[1] and all(d == is_map or mk_not(d) in l for d in t[1]) for t in l)
+    scalar_ok = bool(done) and all(known_map(l) or (pos & l) for l, o in done) and any(pos & l for l, o in done)
     from .common import dict_loops as _dict_loops
     dict_loops = _dict_loops(ca, area)
     dict_ok = False
